@@ -13,6 +13,7 @@ not from the code: reflection, expansion, outside / inside contraction, shrink, 
 """
 import itertools
 from pyvc.contract import contract
+from contracts._shared import save_probe, check_dump_after_record
 
 SO = 'mystic/scipy_optimize.py'
 AS = 'mystic/abstract_solver.py'
@@ -116,7 +117,7 @@ def _nm(h, N, adaptive):
         h.set_summaries({
             (SO, 'NelderMeadSimplexSolver._process_inputs'): process_inputs,
             (AS, 'AbstractSolver._bootstrap_objective'): bootstrap,
-            (AS, 'AbstractSolver.__save_state'): lambda I, c, a, k: None,
+            (AS, 'AbstractSolver.__save_state'): save_probe,
             (MONF, 'Monitor.__call__'): mon_call,
         })
     else:
@@ -202,13 +203,15 @@ def _nm(h, N, adaptive):
             recs=recs, p0=h.ev('p[0]', p=pop1), e0=E[0])
     cbl = h.log('callback')
     h.check('C04/callback-once-with-the-best', 'len(cbl) == 1 and seq_eq(cbl[0][0], p0)', cbl=cbl, p0=h.ev('p[0]', p=pop1))
+    if h.is_sym():
+        check_dump_after_record(h)
     h.cover('shrink', 'c', c=shrink)
     h.cover('expansion', 'c', c=expand)
 
 
 for _N in (1, 2):
     for _ad in (False, True):
-        contract('C08/NM._Step/N=%d,%s' % (_N, 'adaptive' if _ad else 'standard'), ['C08', 'C01', 'C03', 'C04'],
+        contract('C08/NM._Step/N=%d,%s' % (_N, 'adaptive' if _ad else 'standard'), ['C08', 'C01', 'C03', 'C04', 'C06'],
                  SO + '::NelderMeadSimplexSolver._Step', native=False,
                  note='fixed dimension N=%d; all simplices, energies, cost functions; constraints identity or a general '
                       'idempotent map' % _N)(lambda h, n=_N, a=_ad: _nm(h, n, a))
